@@ -143,6 +143,9 @@ func getBC(db adb.DB) *blockchain.Blockchain {
 		sharedBC = blockchain.New("/nonexistent-verif-datadir", db)
 		sharedBC.P2P = &p2p.P2P{Connections: map[string]*p2p.Connection{}}
 		sharedBC.Stratum = nil
+		// no goroutine of the validator may drain its queues behind the harness' back (VerifDeliverBatch runs the
+		// post-processor itself)
+		sharedBC.Validator.Close()
 	}
 	return sharedBC
 }
